@@ -79,6 +79,21 @@ def fixed_programs(g):
               "fields": [{"name": "user_name", "ty": P("String"), "attrs": {}}, {"name": "last_seen", "ty": OPT(P("u32")), "attrs": {}}]}]
     imap = {x["name"]: x for x in items}
     progs.append({"items": items, "probes": [{"ty": N(x["name"]), "values": g.all_variant_values(N(x["name"]), imap), "de": True} for x in items]})
+    # `#[ts(inline)]` on the field of a newtype variant of an INTERNALLY tagged enum whose field type is a union: whether the type is
+    # written by name or inlined, `{ tag } & ..` must keep the tag on every alternative (`&` binds tighter than `|`)
+    items = [{"kind": "enum", "name": "FxShape", "attrs": {}, "generics": [], "de": True,
+              "variants": [{"name": "Circle", "shape": "named", "attrs": {}, "fields": [{"name": "radius", "ty": P("u8"), "attrs": {}}]},
+                           {"name": "Square", "shape": "named", "attrs": {}, "fields": [{"name": "side", "ty": P("u8"), "attrs": {}}]}]},
+             {"kind": "enum", "name": "FxIntInl", "attrs": {"tag": "type"}, "generics": [], "de": True,
+              "variants": [{"name": "Draw", "shape": "tuple", "attrs": {}, "fields": [{"name": None, "ty": N("FxShape"), "attrs": {"inline": True}}]},
+                           # (also by name: without it the recorded finding C03-tagged-newtype-inline — printed by name, registered as inlined — shows)
+                           {"name": "Keep", "shape": "named", "attrs": {}, "fields": [{"name": "shape", "ty": N("FxShape"), "attrs": {}}]},
+                           {"name": "Clear", "shape": "unit", "attrs": {}, "fields": []}]},
+             {"kind": "enum", "name": "FxIntName", "attrs": {"tag": "type"}, "generics": [], "de": True,
+              "variants": [{"name": "Draw", "shape": "tuple", "attrs": {}, "fields": [{"name": None, "ty": N("FxShape"), "attrs": {}}]},
+                           {"name": "Clear", "shape": "unit", "attrs": {}, "fields": []}]}]
+    imap = {x["name"]: x for x in items}
+    progs.append({"items": items, "probes": [{"ty": N(x["name"]), "values": g.all_variant_values(N(x["name"]), imap), "de": True} for x in items]})
     # every inflection rule on identifiers that are not in the conventional case: leading underscores, capitals, digits, acronyms
     # (serde's rules are defined on the conventional spelling; ts-rs has to agree with what serde does on the others too)
     for rule in gen_corpus.RULES:
